@@ -167,7 +167,7 @@ def worker(args):
                 continue
             open(p, "w").write(new)
             try:
-                env = dict(os.environ, VERIF_REPO=wt, VERIF_ANCHORCOV="0")
+                env = dict(os.environ, VERIF_REPO=wt, VERIF_ANCHORCOV="0", VERIF_ESCALATE="0")
                 rc, out = sh(f"./check {pid} --tier {tier}", cwd=VERIF, env=env, timeout=1800)
                 last = out.strip().splitlines()[-1:] or [""]
                 if rc == 1:
